@@ -13,7 +13,10 @@
    respect to every input (adjoint recursion), gap to the true minimum (independent Riccati solve
    of the affine problem), random perturbations.  MPC: linear -> LQR optimum; nonlinear -> dynamics
    satisfied, cost consistent.
-3. Shape grid: LQR returns for every (batch, n_state, n_ctrl, T) unless Model/LQR.v says it raises.
+3. Shape grid: LQR returns the optimum for every (batch, n_state, n_ctrl, T) (Model/LQR.v: lqr_shape_raises = false).
+4. Regression block: the witnesses of the repaired defects (Props/C14.v ..._old_refuted: second solve
+   on one LTV object, T=1 at a stale time, MPC on an LTV object, n_state=1 with a batch) must satisfy
+   the property now.
 A scalar model/implementation mismatch is searched with the oracle of 2."""
 import math
 from ..common import *
@@ -32,6 +35,7 @@ GAP_TOL = 1e-12                 # J(u) - J* <= GAP_TOL * sum |terms|
 GRAD_TOL = 1e-9                 # |dJ/du_t,i| <= GRAD_TOL * sum |terms of that derivative|
 MP_PREC = 400
 
+# stable keys of the input classes of the repaired defects (fixed: lines of known_findings.txt)
 K_STALE = 'LQR.forward:LTV:systime!=0:T>=2:suboptimal'
 K_STALE1 = 'LQR.forward:LTV:systime!=0:T=1:final-state'
 K_MPCLTV = 'MPC.forward:LTV:suboptimal'
@@ -384,8 +388,6 @@ def gen_general(rng, g, sizes=None, kind=None):
     """a random general-dimension problem P and a list of solves"""
     torch = classes()['torch']
     nb, ns, nc, T = sizes or (rng.randint(1, 3), rng.randint(1, 6), rng.randint(1, 6), rng.choice([1, 2, 3, 4, 5, 6, 8, 12, 20]))
-    if ns == 1 and nb >= 2:
-        ns = rng.randint(2, 6)          # n_state = 1 with a batch raises (known finding, shape grid)
     kind = kind or rng.choice(['lti', 'ltv'])
     N = 1 if kind == 'lti' else rng.choice([1, 2, 3, T, T + 1, 2 * T + 3])
     rho = rng.choice([0.3, 0.9, 1.0, 1.2, 1.5, 2.0])
@@ -520,10 +522,10 @@ def run(ctx):
             if v == v and v > worst.get(k, 0.0):
                 worst[k] = v
 
-    # ------------------------------------------------------------------ 0. recorded findings, replayed on every run
-    for case in finding_witnesses():
+    # ------------------------------------------------------------------ 0. regression: witnesses of the repaired defects
+    for case in regression_witnesses():
         why = check_case(case)
-        ctx.case(('finding', case['kind'], case.get('name')), branch='finding-witness')
+        ctx.case(('regression', case['kind'], case.get('name')), branch='regression-witness')
         if why:
             ctx.violation(why[0], why[1], case)
 
@@ -534,12 +536,10 @@ def run(ctx):
             for T in (1, 2, 3):
                 case = dict(kind='shape', nb=nb, ns=ns, nc=nc, T=T, seed=ctx.seed)
                 why = check_case(case)
-                expect_raise = (ns == 1 and nb >= 2 and T >= 2)      # Model/LQR.v: lqr_shape_raises
-                ctx.case(('shape', nb, ns, nc, T), nontrivial=T >= 2, branch='shape:raises' if expect_raise else 'shape:returns')
+                # Model/LQR.v: lqr_shape_raises nb ns T = false (C14_lqr_returns)
+                ctx.case(('shape', nb, ns, nc, T), nontrivial=T >= 2, branch='shape:n_state=1:batch' if (ns == 1 and nb >= 2) else 'shape:other')
                 if why:
                     ctx.violation(why[0], why[1], case)
-                elif expect_raise:
-                    ctx.mismatch('shape', case, 'the model says LQR raises for this shape; it returned a valid optimum')
 
     lap('shape-grid')
     # ------------------------------------------------------------------ 2. scalar route: histories of LQR solves
@@ -699,7 +699,7 @@ def run(ctx):
     nprob = ctx.scale(70, 400)
     directed = [((1, 1, 1, 1), 'lti'), ((1, 1, 1, 2), 'ltv'), ((2, 2, 1, 3), 'lti'), ((3, 3, 2, 4), 'ltv'), ((1, 6, 6, 20), 'lti'),
                 ((1, 1, 6, 5), 'ltv'), ((3, 6, 1, 6), 'ltv'), ((2, 4, 3, 5), 'lti'), ((1, 2, 2, 20), 'ltv'), ((3, 2, 3, 1), 'ltv')]
-    work, budget = 0, ctx.scale(6e5, 3e7)        # deterministic work budget (about 1 s per 25000 units)
+    work, budget = 0, ctx.scale(6e5, 1e7)        # deterministic work budget (about 1 s per 25000 units)
     for k in range(nprob):
         if k >= len(directed) and work > budget:
             break
@@ -733,8 +733,7 @@ def run(ctx):
                 ctx.mismatch('time-bookkeeping', dict(kind='general-time', sizes=(nb, ns, nc, T), t_before=tb, got=r['t'], model=exp_t))
             for bi in range(nb):
                 fails, meas = check_item(case['P'], S, bi, r['x'], r['u'], r['cost'], rng=rng)
-                if not stale:
-                    note_meas(meas)
+                note_meas(meas)
                 if fails:
                     ctx.violation(classify(P, S, tb, fails), 'batch item %d: ' % bi + '; '.join(t for _, t in fails[:3]), case)
                     break
@@ -761,16 +760,12 @@ def run(ctx):
             ctx.violation(why[0], why[1], case)
     lap('mpc')
     ctx.notes.append('seconds per section: %s' % tsec)
-    ctx.notes.append('worst measurements on non-stale solves (units: feas in eps, others relative): %s' % worst)
+    ctx.notes.append('worst measurements (units: feas in eps, others relative): %s' % worst)
 
 
 def expected_time(kind, tb, T):
-    """Model/LQR.v lqr_time (proved: C14_lqr_time_bookkeeping)"""
-    if T == 0:
-        return tb
-    if kind == 'ltv':
-        return T if T >= 2 else tb + 1
-    return tb + 2 * T - 1
+    """Model/LQR.v via C14_lqr_time_bookkeeping: both passes reset the counter, then T calls"""
+    return T
 
 
 def search_scalar(ctx, mm, m):
@@ -803,18 +798,18 @@ def search_scalar(ctx, mm, m):
 
 
 # ---------------------------------------------------------------------------------------------
-def finding_witnesses():
-    """the witnesses of Props/C14.v (..._refuted) on the implementation"""
+def regression_witnesses():
+    """the witnesses of Props/C14.v (..._old_refuted) on the implementation: the property must hold on them"""
     # Proofs/LQR.v: w_sys, w_prob  (A_t = (1, 0, 2)[t mod 3], B = 1, Q = I, p = 0, x_init = 1)
     ltv = dict(kind='ltv', N=3, A=[[[[1.0]], [[0.0]], [[2.0]]]], B=[[[[1.0]], [[1.0]], [[1.0]]]], c1=None, t0=0)
     Q = [[[[1.0, 0.0], [0.0, 1.0]], [[1.0, 0.0], [0.0, 1.0]]]]
     S2 = dict(T=2, Q=Q, p=[[[0.0, 0.0], [0.0, 0.0]]], x0=[[1.0]], u=None, dt=1, tile=False)
     S1 = dict(T=1, Q=[Q[0][:1]], p=[[[0.0, 0.0]]], x0=[[1.0]], u=None, dt=1, tile=False)
     return [
-        dict(kind='second-solve', name='C14_lqr_second_solve_suboptimal_refuted', P=ltv, S=S2),
-        dict(kind='general', name='C14_lqr_stale_final_state_refuted', P=dict(ltv, t0=2), S=S1),
-        dict(kind='mpc-linear', name='C14_mpc_linear_is_lqr_ltv_refuted', P=ltv, S=S2, steps=10),
-        dict(kind='shape', name='C14_lqr_returns_refuted', nb=2, ns=1, nc=1, T=2, seed=0),
+        dict(kind='second-solve', name='C14_lqr_second_solve_suboptimal_old_refuted', P=ltv, S=S2),
+        dict(kind='general', name='C14_lqr_stale_final_state_old_refuted', P=dict(ltv, t0=2), S=S1),
+        dict(kind='mpc-linear', name='C14_mpc_linear_is_lqr_ltv_old_refuted', P=ltv, S=S2, steps=10),
+        dict(kind='shape', name='C14_lqr_returns_old_refuted', nb=2, ns=1, nc=1, T=2, seed=0),
     ]
 
 
@@ -881,11 +876,6 @@ def check_case(case):
         except Exception as e:      # noqa
             return ('MPC.forward:%s:raises' % P['kind'], 'MPC.forward raised %s: %s' % (type(e).__name__, str(e)[:120]))
         fails, _ = check_item(P, S, 0, x.tolist(), u.tolist(), cost.tolist())
-        if not fails:
-            r = run_lqr(build_system(P), S)
-            sc = sum(abs(v) for v in flat(r['cost'])) + 1e-300
-            if abs(r['cost'][0] - float(cost[0])) > 1e-6 * max(1.0, sc):
-                fails = [('optimal', 'MPC cost %r differs from the LQR cost %r on a linear system' % (float(cost[0]), r['cost'][0]))]
         if fails:
             key = classify(P, S, 0, fails, mpc=True)
             text = 'MPC on a linear %s system (fresh object): %s' % (P['kind'], '; '.join(t for _, t in fails[:3]))
